@@ -22,6 +22,20 @@ theorem basis_rows_wf (knots : List Rat) (deg : Nat) (xs : List Rat) (h : deg < 
 theorem basisMidpoints_length (numKnots deg : Nat) (h : 2 ≤ numKnots) :
     basisMidpointsCount (numKnots + 2 * deg) deg = numKnots + deg - 1 := basisMidpointsCount_eq numKnots deg h
 
+/-- the drpls / aspls penalties are scaled by the weights interpolated at the centre of each basis function's support -/
+theorem midpoints_are_support_centres (a h : Rat) (K deg i : Nat) (hi : i + deg + 1 < K) :
+    (basisMidpoints (apKnots a h K) deg).getD i 0 = ((apKnots a h K).getD i 0 + (apKnots a h K).getD (i + deg + 1) 0) / 2 :=
+  basisMidpoints_ap a h K deg i hi
+theorem midpoints_length (knots : List Rat) (deg : Nat) :
+    (basisMidpoints knots deg).length = basisMidpointsCount knots.length deg := Lemmas.basisMidpoints_length knots deg
+theorem interp_node (xs vs : List Rat) (hx : xs.Pairwise (· < ·)) (hl : vs.length = xs.length) (j : Nat) (hj : j < xs.length) :
+    npInterp xs vs (xs.getD j 0) = vs.getD j 0 := npInterp_node xs vs hx hl j hj
+theorem interp_const (xs : List Rat) (v t : Rat) (hx : xs.Pairwise (· < ·)) (hn : 0 < xs.length) :
+    npInterp xs (List.replicate xs.length v) t = v := npInterp_const xs v t hx hn
+theorem interp_bounds (xs vs : List Rat) (lo hi t : Rat) (hx : xs.Pairwise (· < ·)) (hl : vs.length = xs.length) (hn : 0 < xs.length)
+    (hb : ∀ v ∈ vs, lo ≤ v ∧ v ≤ hi) : lo ≤ npInterp xs vs t ∧ npInterp xs vs t ≤ hi := npInterp_bounds xs vs lo hi t hx hl hn hb
+
+example : basisMidpoints (apKnots 0 1 9) 3 = [2, 3, 4, 5, 6] ∧ basisMidpoints (apKnots 0 1 7) 2 = [3/2, 5/2, 7/2, 9/2] := by decide +kernel
 example : (asmPspline 1 3 2 10 (designRows [-1, 0, 1, 2, 3] 1 [0, 1/2, 1]) [1, 2, 3] [1, 1, 1]).1 =
     [[45/4, 165/4, 10], [-79/4, -20, 0], [10, 0, 0]] := by decide +kernel
 
